@@ -1,6 +1,627 @@
-//! C06 — stub (not yet implemented; not registered in MANIFEST.json).
-use crate::fw::{CheckDef, Ctx};
+//! C06 — every input yields output or a diagnostic: no crash, no hang.
+//!
+//! Verdicts come from the worker isolation of the framework: a panic is caught (crash/...), a worker
+//! that dies (stack overflow, abort) or makes no progress for `hang_s` seconds is detected by the
+//! driver (abort/... , hang). Families 1-3 run in-process; family 4 (pumping) and a slice of
+//! family 3 run the real hooks-off binary as a sub-process.
 
-pub const DEF: CheckDef = CheckDef { id: "C06", run, technique: "stub", rule: "stub", assumptions: &[], shards: 0, hang_s: 20, single_worker: false };
+use std::collections::BTreeMap;
+use std::path::{Path, PathBuf};
+use std::time::{Duration, Instant};
 
-fn run(_ctx: &mut Ctx) {}
+use okane_core::report;
+use okane_core::report::query::{BalanceQuery, Conversion, ConversionStrategy, DateRange, PostingQuery};
+
+use crate::fw::{CheckDef, Ctx, Outcome, Tier};
+use crate::oka;
+
+pub const DEF: CheckDef = CheckDef {
+    id: "C06",
+    run,
+    technique: "bounded-exhaustive input enumeration under process isolation with a hang watchdog: all token strings up to a length bound, every truncation of every valid ledger, all include graphs on up to 3 files, and pumping of every nestable/repeatable construct, through parse, format, load, balance, register, accounts and conversion",
+    rule: "case = one input. Family 1: ALL sequences of <= 4 (thorough 5) tokens over a 30-token ledger alphabet. Family 2: every prefix cut at every character and at every byte of every .ledger file in the repository and of a kitchen-sink document. Family 3: all directed include graphs on <= 3 files with <= 2 include lines each (self loops, cycles, diamonds, missing targets, globs matching the includer) on the in-memory file system, the smallest also on the real file system through the real binary. Family 4: every nestable or repeatable construct pumped to n in {1,10,100,1000,10000,100000} through the real binary, plus all 1-2 posting transactions containing a zero (amount, rate, total, price-db rate) through balance / register / conversion. Oracle: terminates within the watchdog, no panic, process not killed by a signal, and a failure carries a non-empty message. states = distinct inputs, transitions = command executions",
+    assumptions: &["numbers stay within the representable decimal range (the pumping of literal digits checks that out-of-range literals are rejected, not that arithmetic on them is defined)", "hang threshold 20 s per case (normal cases take microseconds to milliseconds)"],
+    shards: 128,
+    hang_s: 20,
+    single_worker: false,
+};
+
+const TOKENS: [&str; 30] = [
+    "2024/01/01", " ", "  ", "\t", "\n", "\r\n", ";", "A:b", "1", "1,000.5", "-", ".", ",", "USD", "(", ")", "{", "}", "[", "]", "@", "@@", "=", "*", "!", ":", "include x", "account", "\u{e9}", "\u{65e5}",
+];
+
+/// Render an error and its whole source chain; rendering itself must not panic either.
+fn chain_text(e: &dyn std::error::Error) -> String {
+    let mut s = e.to_string();
+    let mut cur = e.source();
+    while let Some(c) = cur {
+        s.push_str("\nCaused by ");
+        s.push_str(&c.to_string());
+        cur = c.source();
+    }
+    s
+}
+
+/// Run everything okane offers on one in-memory file tree. Returns a coarse outcome class or a violation.
+pub fn exercise(files: &[(&str, &[u8])], root: &str) -> Outcome {
+    let mut class = String::new();
+    // format (parse + print) on the root text if it is UTF-8
+    if let Some((_, bytes)) = files.iter().find(|(p, _)| *p == root) {
+        let mut out: Vec<u8> = vec![];
+        let mut r: &[u8] = bytes;
+        match okane::format::format(&mut r, &mut out) {
+            Ok(()) => {
+                class.push_str("format-ok");
+                // formatting the formatted text must not crash either
+                let mut out2: Vec<u8> = vec![];
+                let mut r2: &[u8] = &out;
+                let _ = okane::format::format(&mut r2, &mut out2);
+            }
+            Err(e) => {
+                if chain_text(&e).trim().is_empty() {
+                    return Outcome::violation("format/error-without-message", "format failed with an empty message");
+                }
+                class.push_str("format-err");
+            }
+        }
+    }
+    let mk = || {
+        let mut m: std::collections::HashMap<PathBuf, Vec<u8>> = std::collections::HashMap::new();
+        for (p, b) in files {
+            m.insert(PathBuf::from(p), b.to_vec());
+        }
+        okane_core::load::Loader::new(PathBuf::from(root), okane_core::load::FakeFileSystem::from(m)).with_error_renderer(annotate_snippets::Renderer::plain())
+    };
+    // accounts
+    {
+        let arena = bumpalo::Bump::new();
+        let mut ctx = report::ReportContext::new(&arena);
+        match report::accounts(&mut ctx, mk()) {
+            Ok(a) => {
+                let _ = a.iter().map(|x| x.as_str().len()).sum::<usize>();
+                class.push_str("/accounts-ok");
+            }
+            Err(e) => {
+                if chain_text(&e).trim().is_empty() {
+                    return Outcome::violation("accounts/error-without-message", "accounts failed with an empty message");
+                }
+                class.push_str("/accounts-err");
+            }
+        }
+    }
+    // process + balance + register + conversions
+    {
+        let arena = bumpalo::Bump::new();
+        let mut ctx = report::ReportContext::new(&arena);
+        match report::process(&mut ctx, mk(), &report::ProcessOptions::default()) {
+            Ok(mut l) => {
+                class.push_str("/process-ok");
+                let mut sink = 0usize;
+                if let Ok(b) = l.balance(&ctx, &BalanceQuery::default()) {
+                    for (a, amt) in b.into_owned().into_vec() {
+                        sink += a.as_str().len() + format!("{}", amt.as_inline_display()).len();
+                    }
+                }
+                let posts = l.postings(&ctx, &PostingQuery { account: None });
+                let mut running = report::Amount::default();
+                for p in posts {
+                    running += p.amount.clone();
+                    sink += format!("{} {}", p.amount.as_inline_display(), running.as_inline_display()).len();
+                }
+                let d = oka::date(2024, 6, 1);
+                for name in ["USD", "\u{65e5}", "A:b"] {
+                    if let Some(c) = ctx.commodity(name) {
+                        for strategy in [ConversionStrategy::Historical, ConversionStrategy::UpToDate { now: d }] {
+                            let q = BalanceQuery { conversion: Some(Conversion { strategy, target: c }), date_range: DateRange { start: Some(oka::date(2024, 1, 1)), end: None } };
+                            match l.balance(&ctx, &q) {
+                                Ok(b) => sink += b.into_owned().into_vec().len(),
+                                Err(e) => {
+                                    if chain_text(&e).trim().is_empty() {
+                                        return Outcome::violation("balance-X/error-without-message", "conversion failed with an empty message");
+                                    }
+                                }
+                            }
+                        }
+                    }
+                }
+                let _ = sink;
+            }
+            Err(e) => {
+                if chain_text(&e).trim().is_empty() {
+                    return Outcome::violation("process/error-without-message", "process failed with an empty message");
+                }
+                class.push_str("/process-err");
+            }
+        };
+    }
+    Outcome::pass(class)
+}
+
+const INCLUDED_X: &[u8] = b"2024/02/02 included\n  X:y  1 USD\n  X:z\n";
+
+fn kitchen_sink() -> String {
+    "; top comment\n# another\n\naccount Assets:Bank\n  note main account\n  alias bank\n  ; comment\n\ncommodity USD\n  note dollar\n  alias $\n  format 1,000.00 USD\n\napply tag trip\n\n2024/01/05=2024/01/07 * (C-1) Payee name ; inline: note\n  ; :tag1:tag2:\n  ; key: value\n  ; amt:: (1 + 2)\n  ! Assets:Bank  -1,234.50 USD = 10,000 USD ; posting note\n  Expenses:Food  (1,000 USD + 234.50 USD)\n\n2024-02-01 buy\n  Assets:Broker  10 AAPL {100 USD} [2024/01/01] (lot note) @ 110 USD\n  Assets:Broker  -5 AAPL {{500 USD}} @@ 550 USD\n  Assets:Bank  = 9,000 USD\n  Income:Gain\n\nend apply tag\n\ninclude x\n\n2024/03/01 \u{65e5}\u{672c}\u{8a9e} \u{306e} payee\n  \u{8cc7}\u{7523}:\u{9280}\u{884c}  1,000 JPY\n  bank  -10 USD\n  Equity\n".to_string()
+}
+
+fn corpus() -> Vec<(String, String)> {
+    let mut v = vec![("<kitchen-sink>".to_string(), kitchen_sink())];
+    let mut files: Vec<PathBuf> = vec![];
+    fn walk(d: &Path, out: &mut Vec<PathBuf>) {
+        if let Ok(rd) = std::fs::read_dir(d) {
+            let mut es: Vec<PathBuf> = rd.flatten().map(|e| e.path()).collect();
+            es.sort();
+            for p in es {
+                if p.is_dir() {
+                    if p.file_name().map(|n| n == "target" || n == ".git").unwrap_or(false) {
+                        continue;
+                    }
+                    walk(&p, out);
+                } else if p.extension().map(|e| e == "ledger").unwrap_or(false) {
+                    out.push(p);
+                }
+            }
+        }
+    }
+    walk(Path::new("/repo/testdata"), &mut files);
+    walk(Path::new("/repo/cli/tests/testdata"), &mut files);
+    walk(Path::new("/repo/core/tests"), &mut files);
+    for f in files {
+        if let Ok(s) = std::fs::read_to_string(&f) {
+            v.push((f.to_string_lossy().to_string(), s));
+        }
+    }
+    v
+}
+
+// ---------------------------------------------------------------------------------------------
+// family 3: include graphs
+
+const INC_TARGETS: [&str; 5] = ["f0.ledger", "f1.ledger", "f2.ledger", "missing.ledger", "*.ledger"];
+
+/// includes of one file: 0, 1 or 2 include lines over INC_TARGETS (index into a flat enumeration of 31 options)
+fn include_option(k: usize) -> Vec<&'static str> {
+    match k {
+        0 => vec![],
+        1..=5 => vec![INC_TARGETS[k - 1]],
+        _ => {
+            let j = k - 6;
+            vec![INC_TARGETS[j / 5], INC_TARGETS[j % 5]]
+        }
+    }
+}
+
+fn graph_files(nfiles: usize, opts: &[usize]) -> Vec<(String, String)> {
+    (0..nfiles)
+        .map(|i| {
+            let mut t = format!("2024/01/0{} t{}\n  A{}  1 USD\n  B\n\n", i + 1, i, i);
+            for inc in include_option(opts[i]) {
+                t.push_str(&format!("include {}\n", inc));
+            }
+            t.push_str(&format!("\n2024/02/0{} u{}\n  C{}  2 USD\n  D\n", i + 1, i, i));
+            (format!("/v/f{}.ledger", i), t)
+        })
+        .collect()
+}
+
+/// Is there a cycle reachable from f0 (following literal and glob includes among existing files)?
+fn has_cycle(nfiles: usize, opts: &[usize]) -> (bool, bool) {
+    // returns (cycle reachable, missing target reachable before any cycle is certain) — coarse, used only for classes
+    let succ = |i: usize| -> Vec<Option<usize>> {
+        let mut v = vec![];
+        for inc in include_option(opts[i]) {
+            match inc {
+                "*.ledger" => {
+                    for j in 0..nfiles {
+                        v.push(Some(j));
+                    }
+                }
+                "missing.ledger" => v.push(None),
+                f => {
+                    let j: usize = f[1..2].parse().unwrap();
+                    v.push(if j < nfiles { Some(j) } else { None });
+                }
+            }
+        }
+        v
+    };
+    fn dfs(i: usize, stack: &mut Vec<usize>, succ: &dyn Fn(usize) -> Vec<Option<usize>>, cyc: &mut bool, miss: &mut bool) {
+        if stack.contains(&i) {
+            *cyc = true;
+            return;
+        }
+        stack.push(i);
+        for s in succ(i) {
+            match s {
+                None => *miss = true,
+                Some(j) => dfs(j, stack, succ, cyc, miss),
+            }
+            if *cyc {
+                break;
+            }
+        }
+        stack.pop();
+    }
+    let (mut cyc, mut miss) = (false, false);
+    dfs(0, &mut vec![], &succ, &mut cyc, &mut miss);
+    (cyc, miss)
+}
+
+// ---------------------------------------------------------------------------------------------
+// family 4: pumping through the real binary
+
+fn run_binary(args: &[&str], timeout: Duration, tick: &dyn Fn()) -> (String, usize, usize) {
+    let mut child = std::process::Command::new(super::c13::OFF_BINARY).args(args).env_remove("RUST_LOG").stdout(std::process::Stdio::piped()).stderr(std::process::Stdio::piped()).spawn().expect("spawn okane");
+    // drain pipes in threads so that a large output cannot block the child
+    let mut so = child.stdout.take().unwrap();
+    let mut se = child.stderr.take().unwrap();
+    let t1 = std::thread::spawn(move || {
+        let mut b = vec![];
+        std::io::Read::read_to_end(&mut so, &mut b).ok();
+        b.len()
+    });
+    let t2 = std::thread::spawn(move || {
+        let mut b = vec![];
+        std::io::Read::read_to_end(&mut se, &mut b).ok();
+        b.len()
+    });
+    let t0 = Instant::now();
+    let status = loop {
+        match child.try_wait().expect("wait") {
+            Some(st) => break Some(st),
+            None => {
+                if t0.elapsed() > timeout {
+                    let _ = child.kill();
+                    let _ = child.wait();
+                    break None;
+                }
+                tick();
+                std::thread::sleep(Duration::from_millis(5));
+            }
+        }
+    };
+    let (o, e) = (t1.join().unwrap_or(0), t2.join().unwrap_or(0));
+    use std::os::unix::process::ExitStatusExt;
+    let kind = match status {
+        None => "hang".to_string(),
+        Some(st) => match (st.code(), st.signal()) {
+            (Some(c), _) => format!("exit-{}", c),
+            (None, Some(s)) => format!("signal-{}", s),
+            _ => "unknown".to_string(),
+        },
+    };
+    (kind, o, e)
+}
+
+fn pump(kind: &str, n: usize) -> Option<String> {
+    let rep = |s: &str, n: usize| s.repeat(n);
+    Some(match kind {
+        "nested-parens-amount" => format!("2024/01/01 x\n  A  {}1 USD{}\n  B\n", rep("(", n), rep(")", n)),
+        "nested-parens-cost" => format!("2024/01/01 x\n  A  1 EUR @ {}1 USD{}\n  B\n", rep("(", n), rep(")", n)),
+        "nested-parens-assertion" => format!("2024/01/01 x\n  A  1 USD = {}1 USD{}\n  B\n", rep("(", n), rep(")", n)),
+        "unary-minus-chain" => format!("2024/01/01 x\n  A  ({}1 USD{})\n  B\n", rep("-(", n), rep(")", n)),
+        "long-sum" => format!("2024/01/01 x\n  A  (1 USD{})\n  B\n", rep(" + 1 USD", n)),
+        "many-commodities-in-one-amount" => {
+            let mut s = String::from("2024/01/01 x\n  A  (1 C0");
+            for i in 1..n {
+                s.push_str(&format!(" + 1 C{}", letters(i)));
+            }
+            s.push_str(")\n  B\n");
+            s
+        }
+        "many-postings" => format!("2024/01/01 x\n{}  B\n", rep("  A  1 USD\n", n)),
+        "many-transactions" => rep("2024/01/01 x\n  A  1 USD\n  B\n\n", n),
+        "many-metadata-lines" => format!("2024/01/01 x\n{}  A  1 USD\n  B\n", rep("  ; k: v\n", n)),
+        "many-blank-lines" => format!("{}2024/01/01 x\n  A  1 USD\n  B\n", rep("\n", n)),
+        "many-comment-lines" => format!("{}2024/01/01 x\n  A  1 USD\n  B\n", rep("; c\n", n)),
+        "long-account-name" => format!("2024/01/01 x\n  {}  1 USD\n  B\n", rep("a", n)),
+        "long-payee" => format!("2024/01/01 {}\n  A  1 USD\n  B\n", rep("p", n)),
+        "long-commodity" => format!("2024/01/01 x\n  A  1 {}\n  B\n", rep("U", n)),
+        "literal-digits" => format!("2024/01/01 x\n  A  {} USD\n  B\n", rep("9", n)),
+        "literal-fraction-digits" => format!("2024/01/01 x\n  A  0.{}1 USD\n  B\n", rep("0", n)),
+        "many-accounts" => {
+            let mut s = String::from("2024/01/01 x\n");
+            for i in 0..n {
+                s.push_str(&format!("  A{}  1 USD\n", i));
+            }
+            s.push_str("  B\n");
+            s
+        }
+        "many-aliases" => {
+            let mut s = String::from("account A\n");
+            for i in 0..n {
+                s.push_str(&format!("  alias a{}\n", i));
+            }
+            s.push_str("\n2024/01/01 x\n  a0  1 USD\n  B\n");
+            s
+        }
+        "big-product" => format!("2024/01/01 x\n  A  (1 USD{})\n  B\n", rep(" * 10", n.min(27))),
+        _ => return None,
+    })
+}
+
+fn letters(mut i: usize) -> String {
+    // commodity names cannot contain digits
+    let mut s = String::new();
+    loop {
+        s.push((b'a' + (i % 26) as u8) as char);
+        i /= 26;
+        if i == 0 {
+            break;
+        }
+    }
+    s
+}
+
+const PUMP_KINDS: [&str; 19] = [
+    "nested-parens-amount", "nested-parens-cost", "nested-parens-assertion", "unary-minus-chain", "long-sum", "many-commodities-in-one-amount", "many-postings", "many-transactions", "many-metadata-lines", "many-blank-lines", "many-comment-lines", "long-account-name", "long-payee", "long-commodity", "literal-digits", "literal-fraction-digits", "many-accounts", "many-aliases", "big-product",
+];
+
+fn judge_binary(kind: &str, e_len: usize) -> Option<Outcome> {
+    match kind {
+        "exit-0" => None,
+        "exit-1" => {
+            if e_len == 0 {
+                Some(Outcome::violation("binary/failure-without-message", "exit status 1 with empty stderr"))
+            } else {
+                None
+            }
+        }
+        "hang" => Some(Outcome::violation("binary/hang", "the okane process did not finish within the time limit and was killed")),
+        k if k.starts_with("signal-") => Some(Outcome::violation(format!("binary/killed-by-{}", k), "the okane process was killed by a signal (stack overflow / abort)")),
+        k => Some(Outcome::violation(format!("binary/unexpected-{}", k), "unexpected exit status (a panic exits with 101)")),
+    }
+}
+
+fn run(ctx: &mut Ctx) {
+    let dir = oka::scratch_dir("c06");
+    // ---------------- family 1: raw token strings
+    let maxlen = ctx.tier.pick(4u32, 5u32);
+    let nt = TOKENS.len() as u64;
+    for len in 1..=maxlen {
+        let total = nt.pow(len);
+        for k in 0..total {
+            if !ctx.next_is_mine() {
+                ctx.skip_cases(1);
+                continue;
+            }
+            let mut text = String::new();
+            let mut x = k;
+            for _ in 0..len {
+                text.push_str(TOKENS[(x % nt) as usize]);
+                x /= nt;
+            }
+            ctx.case(|| format!("{:?}", text), || exercise(&[(oka::ROOT, text.as_bytes()), ("/v/x", INCLUDED_X)], oka::ROOT));
+        }
+    }
+    // a second pass with a valid header in front, so that the tokens are met in posting position as well
+    let maxlen2 = ctx.tier.pick(3u32, 4u32);
+    for len in 1..=maxlen2 {
+        let total = nt.pow(len);
+        for k in 0..total {
+            if !ctx.next_is_mine() {
+                ctx.skip_cases(1);
+                continue;
+            }
+            let mut text = String::from("2024/01/01 p\n  A  1 USD\n  B");
+            let mut x = k;
+            for _ in 0..len {
+                text.push_str(TOKENS[(x % nt) as usize]);
+                x /= nt;
+            }
+            ctx.case(|| format!("{:?}", text), || exercise(&[(oka::ROOT, text.as_bytes()), ("/v/x", INCLUDED_X)], oka::ROOT));
+        }
+    }
+    // ---------------- family 2: truncations
+    let corpus = corpus();
+    ctx.fact("truncation_corpus_files", corpus.len() as u64);
+    ctx.fact("truncation_corpus_bytes", corpus.iter().map(|(_, s)| s.len() as u64).sum::<u64>());
+    for (name, text) in &corpus {
+        let bytes = text.as_bytes();
+        for cut in 0..=bytes.len() {
+            if !ctx.next_is_mine() {
+                ctx.skip_cases(1);
+                continue;
+            }
+            let is_char = text.is_char_boundary(cut);
+            ctx.case(
+                || format!("prefix of {} cut at byte {} ({}):\n{}", name, cut, if is_char { "character boundary" } else { "inside a multi-byte character" }, String::from_utf8_lossy(&bytes[..cut])),
+                || exercise(&[(oka::ROOT, &bytes[..cut]), ("/v/x", INCLUDED_X)], oka::ROOT),
+            );
+        }
+    }
+    // ---------------- family 3: include graphs (in-memory)
+    let mut graphs: Vec<(usize, Vec<usize>)> = vec![];
+    for a in 0..31 {
+        graphs.push((1, vec![a]));
+    }
+    for a in 0..31 {
+        for b in 0..31 {
+            graphs.push((2, vec![a, b]));
+        }
+    }
+    let per3 = ctx.tier.pick(6usize, 31usize); // quick: <= 1 include line per file for 3-file graphs
+    for a in 0..per3 {
+        for b in 0..per3 {
+            for c in 0..per3 {
+                graphs.push((3, vec![a, b, c]));
+            }
+        }
+    }
+    ctx.fact("include_graphs", graphs.len() as u64);
+    for (n, opts) in &graphs {
+        if !ctx.next_is_mine() {
+            ctx.skip_cases(1);
+            continue;
+        }
+        let files = graph_files(*n, opts);
+        ctx.case(
+            || files.iter().map(|(p, t)| format!("== {} ==\n{}", p, t)).collect::<Vec<_>>().join("\n"),
+            || {
+                let fr: Vec<(&str, &[u8])> = files.iter().map(|(p, t)| (p.as_str(), t.as_bytes())).collect();
+                let o = exercise(&fr, "/v/f0.ledger");
+                let (cyc, miss) = has_cycle(*n, opts);
+                match o.verdict {
+                    crate::fw::Verdict::Pass => {
+                        if cyc && o.class.contains("process-ok") {
+                            return Outcome::violation("include-cycle-accepted", "the include graph is cyclic but loading succeeded (it cannot have terminated faithfully)");
+                        }
+                        Outcome::pass(format!("include-graph/{}{}/{}", if cyc { "cyclic" } else { "acyclic" }, if miss { "+missing" } else { "" }, o.class))
+                    }
+                    _ => o,
+                }
+            },
+        );
+    }
+    // real file system through the real binary: the 1- and 2-file graphs (thorough) / a slice (quick)
+    let real_graphs: Vec<(usize, Vec<usize>)> = graphs.iter().filter(|(n, o)| *n == 1 || (*n == 2 && (ctx.tier == Tier::Thorough || (o[0] * 31 + o[1]) % 23 == 0))).cloned().collect();
+    for (n, opts) in &real_graphs {
+        if !ctx.next_is_mine() {
+            ctx.skip_cases(1);
+            continue;
+        }
+        let files = graph_files(*n, opts);
+        let tick_ctx: *const Ctx = ctx;
+        let tick = move || unsafe { (*tick_ctx).tick() };
+        let gdir = dir.join(format!("graph-{}", ctx.shard));
+        ctx.case(
+            || format!("[real file system, real binary: balance f0.ledger]\n{}", files.iter().map(|(p, t)| format!("== {} ==\n{}", p, t)).collect::<Vec<_>>().join("\n")),
+            || {
+                let _ = std::fs::remove_dir_all(&gdir);
+                std::fs::create_dir_all(&gdir).expect("mkdir");
+                for (p, t) in &files {
+                    std::fs::write(gdir.join(p.trim_start_matches("/v/")), t).expect("write");
+                }
+                let root = gdir.join("f0.ledger");
+                for cmd in ["balance", "accounts"] {
+                    let (kind, _o, e) = run_binary(&[cmd, &root.to_string_lossy()], Duration::from_secs(15), &tick);
+                    if let Some(v) = judge_binary(&kind, e) {
+                        return v;
+                    }
+                }
+                Outcome::pass("include-graph/real-fs")
+            },
+        );
+    }
+    // ---------------- family 4: pumping through the real binary
+    let sizes: &[usize] = ctx.tier.pick(&[1usize, 10, 100, 1000, 10000][..], &[1usize, 10, 100, 1000, 10000, 100000][..]);
+    for kind in PUMP_KINDS {
+        for &n in sizes {
+            if !ctx.next_is_mine() {
+                ctx.skip_cases(1);
+                continue;
+            }
+            let tick_ctx: *const Ctx = ctx;
+            let tick = move || unsafe { (*tick_ctx).tick() };
+            let path = dir.join(format!("pump-{}.ledger", ctx.shard));
+            ctx.case(
+                || format!("[real binary: balance, register, format, accounts] construct {} pumped to n = {}", kind, n),
+                || {
+                    let text = pump(kind, n).expect("known kind");
+                    std::fs::write(&path, &text).expect("write");
+                    let p = path.to_string_lossy().to_string();
+                    for cmd in ["balance", "register", "format", "accounts"] {
+                        let (k, _o, e) = run_binary(&[cmd, &p], Duration::from_secs(15), &tick);
+                        if let Some(v) = judge_binary(&k, e) {
+                            return match v.verdict {
+                                crate::fw::Verdict::Violation { sig, detail } => Outcome::violation(format!("{}/{}/{}", sig, cmd, kind), detail),
+                                _ => v,
+                            };
+                        }
+                    }
+                    Outcome::pass(format!("pump/{}", kind))
+                },
+            );
+        }
+    }
+    // include chain of depth n on the real file system
+    for &n in ctx.tier.pick(&[1usize, 10, 100][..], &[1usize, 10, 100, 1000][..]) {
+        if !ctx.next_is_mine() {
+            ctx.skip_cases(1);
+            continue;
+        }
+        let tick_ctx: *const Ctx = ctx;
+        let tick = move || unsafe { (*tick_ctx).tick() };
+        let cdir = dir.join(format!("chain-{}", ctx.shard));
+        ctx.case(
+            || format!("[real binary: balance] chain of {} files, each including the next", n),
+            || {
+                let _ = std::fs::remove_dir_all(&cdir);
+                std::fs::create_dir_all(&cdir).expect("mkdir");
+                for i in 0..n {
+                    let mut t = format!("2024/01/01 t{}\n  A  1 USD\n  B\n", i);
+                    if i + 1 < n {
+                        t.push_str(&format!("include c{}.ledger\n", i + 1));
+                    }
+                    std::fs::write(cdir.join(format!("c{}.ledger", i)), t).expect("write");
+                }
+                let (k, _o, e) = run_binary(&["balance", &cdir.join("c0.ledger").to_string_lossy()], Duration::from_secs(15), &tick);
+                let r = judge_binary(&k, e).unwrap_or_else(|| Outcome::pass("pump/include-chain"));
+                let _ = std::fs::remove_dir_all(&cdir);
+                r
+            },
+        );
+    }
+    // ---------------- arithmetic on user-supplied zeros (in-process; C01's alphabet restricted to shapes with a zero)
+    let alpha = super::c01::alphabet();
+    let zeroish: Vec<&crate::refledger::P> = alpha
+        .iter()
+        .filter(|p| match &p.amt {
+            Some((v, _)) => *v == "0" || matches!(p.ann, crate::refledger::Ann::Rate("0", _)),
+            None => false,
+        })
+        .collect();
+    ctx.fact("zero_shapes", zeroish.len() as u64);
+    let dbpath = dir.join(format!("zero-db-{}.txt", ctx.shard));
+    let dbs = ["", "P 2024/01/13 X 0 Y\n", "P 2024/01/13 X 0 Y\nP 2024/01/14 Y 0 X\n", "P 2024/01/13 X 0.0 X\n"];
+    for (di, db) in dbs.iter().enumerate() {
+        for a in &zeroish {
+            for b in alpha.iter() {
+                if !ctx.next_is_mine() {
+                    ctx.skip_cases(1);
+                    continue;
+                }
+                let mut pa = (*a).clone();
+                pa.acct = "P1";
+                let mut pb = b.clone();
+                pb.acct = "P2";
+                let text = format!("2024/01/01 z\n{}\n{}\n", pa.render("P1"), pb.render("P2"));
+                ctx.case(
+                    || format!("{}-- price db --\n{}", text, db),
+                    || {
+                        let dbp = if db.is_empty() {
+                            None
+                        } else {
+                            std::fs::write(&dbpath, db).expect("write db");
+                            Some(dbpath.as_path())
+                        };
+                        oka::with_ledger(&[(oka::ROOT, text.as_str())], oka::ROOT, dbp, |r| match r {
+                            Err(e) => {
+                                if e.rendered.trim().is_empty() && e.chain.is_empty() {
+                                    Outcome::violation("zero/error-without-message", "empty error")
+                                } else {
+                                    Outcome::pass(format!("zero/db{}/rejected/{}", di, e.variant))
+                                }
+                            }
+                            Ok((l, ctx2)) => {
+                                let d = oka::date(2024, 2, 1);
+                                let mut fails = 0;
+                                for name in ["X", "Y", "Z"] {
+                                    if let Some(c) = ctx2.commodity(name) {
+                                        for strategy in [ConversionStrategy::Historical, ConversionStrategy::UpToDate { now: d }] {
+                                            if l.balance(ctx2, &BalanceQuery { conversion: Some(Conversion { strategy, target: c }), date_range: DateRange::default() }).is_err() {
+                                                fails += 1;
+                                            }
+                                        }
+                                    }
+                                }
+                                Outcome::pass(format!("zero/db{}/accepted/{}", di, if fails > 0 { "some-conversions-fail" } else { "all-conversions-ok" }))
+                            }
+                        })
+                    },
+                );
+            }
+        }
+    }
+    let _ = std::fs::remove_file(&dbpath);
+    let _: BTreeMap<u8, u8> = BTreeMap::new();
+}
